@@ -308,12 +308,17 @@ Ltac borrow_facts :=
                     assert (hb KBI b <= r IPOOL) by (unfold borrowed_ok in *; lia)
              end
          end.
+Ltac borrow_facts1 :=
+  try match goal with HX : borrowed_ok (?pv KBX) (?r XPOOL), H : 1 <= ?pv KBX |- _ =>
+        assert (1 <= r XPOOL) by (unfold borrowed_ok in HX; lia) end;
+  try match goal with HI : borrowed_ok (?pv KBI) (?r IPOOL), H : 1 <= ?pv KBI |- _ =>
+        assert (1 <= r IPOOL) by (unfold borrowed_ok in HI; lia) end.
 Ltac prep :=
   unfold Greg, finset, MAXC, MAXE, f_OS_OBJECT_GLOBAL_REFCNT in *; conj_hyps; b_facts.
 Ltac finish :=
   bool_hyps; repeat match goal with H : _ \/ _ |- _ => destruct H end; bool_hyps; leave_facts; try congruence; unfold sv in *;
   repeat match goal with H : s32 (ea _) = _ |- _ => rewrite H in * end;
-  simp_goal; cbn [held held0 hb hk one b2z] in *; borrow_facts; s32_norm;
+  simp_goal; cbn [held held0 hb hk one b2z] in *; borrow_facts; borrow_facts1; s32_norm;
   repeat split;
   try match goal with
       | |- borrowed_ok _ _ => unfold borrowed_ok in *; lia
@@ -342,6 +347,8 @@ Proof.
                    | H : nz _ = _ |- _ => rewrite H in *
                    | H : (nz _ && nz _) = _ |- _ => rewrite H in *
                    end; cbn [andb] in *; lia).
+  (* "deallocated while in use": the dispose step holds the last token, so value / HAS_NOTIFS cannot be set *)
+  all: try (lazymatch goal with |- _ /\ _ => fail | _ => idtac end; exfalso; unfold borrowed_ok in *; lia).
   - (* PWeakLoad *)
     destruct (at_ e OBJ_G OFF_XREF DV_LOAD (mo_code retain_weak_loop_order)); [|discriminate].
     split_ifs Hef. injection Hef as <- <-.
